@@ -964,10 +964,12 @@ fn production_path(out: &mut Out, rng: &mut Rng, pol: Pol, next_id: &mut u64) {
         let mut shipped = Vec::new();
         for c in cmds2 {
             let _ = st.execute(c).await;
+            // the instant the client has its reply
+            let at = st2.calls();
             // fire-and-forget modes: let the actor take the message before the next command
             tokio::time::sleep(Duration::from_millis(10)).await;
             for d in rx.drain() {
-                shipped.push((d, st2.calls()));
+                shipped.push((d, at));
             }
         }
         st.clear_wal_handle();
